@@ -95,7 +95,7 @@ fn sub_schema(r: &mut Rng, depth: usize, used: &mut Vec<String>) -> Value {
 /// (schema, which shape was aimed at)
 fn top_schema(r: &mut Rng) -> (Value, &'static str) {
     let mut used = vec!["s1".to_string(), "s2".to_string()];
-    match r.below(20) {
+    match r.below(30) {
         0 => (json!({"type": "string", "enum": ["x", "y"]}), "bad:enum-values"),
         1 => (json!({"oneOf": [{"type": "string", "enum": ["x"]}, {"type": "string", "enum": ["y"]}]}), "bad:enum-subschemas"),
         2 => (json!({"type": "object", "properties": {"a": {"type": "string"}}, "format": "x"}), "bad:format"),
